@@ -147,7 +147,7 @@ func c03Wants(rs model.RowSet, keys []string) [][]string {
 }
 
 func runC03(run *common.Run) {
-	run.Rule = "case = one ReadRows with one RowSet (ranges with each bound unset/open/closed over the 7-key adversarial universe, optional explicit key, rows_limit) against one table content on one engine, result compared with the set-union model and the chunk-stream state machine. Enumerated sub-space: quick = all 289 single ranges (each bound unset / open / closed over the universe, or present with an empty key) x 8 key options x 4 limits x 3 tables, plus all ordered pairs of a 60-range stratified subset; thorough = ALL 289^2 range pairs x 8 key options (exhaustive for 'two ranges plus one key'). Non-trivial = result is a non-empty strict subset of the table, or an inverted range; distinct by (rowset, limit, table, engine). Further parts: duplicate/many-range sets, multi-message streams with limits at message boundaries and row-dropping filters, row sets of up to 1500 keys and 1100 ranges over a 3000-row table, a table of rows carrying 32 KiB - 1 MiB of values (byte thresholds crossed on the last cell of a row, mid-row and between rows), SampleRowKeys invariants."
+	run.Rule = "case = one ReadRows with one RowSet (ranges with each bound unset/open/closed over the 7-key adversarial universe, optional explicit key, rows_limit) against one table content on one engine, result compared with the set-union model and the chunk-stream state machine. Enumerated sub-space: quick = all 289 single ranges (each bound unset / open / closed over the universe, or present with an empty key) x 8 key options x 4 limits x 3 tables, plus all ordered pairs of a 60-range stratified subset; thorough = ALL 289^2 range pairs x 8 key options (exhaustive for 'two ranges plus one key'). Non-trivial = result is a non-empty strict subset of the table, or an inverted range; distinct by (rowset, limit, table, engine). Further parts: duplicate/many-range sets, multi-message streams with limits at message boundaries and row-dropping filters, row sets of up to 1500 keys and 1100 ranges over a 3000-row table, a table of rows carrying 32 KiB - 1 MiB of values (byte thresholds crossed on the last cell of a row, mid-row and between rows), SampleRowKeys invariants on static tables and after every step of histories mixing SampleRowKeys with prefix drops, family drops, delete-all, row writes and row deletes."
 	run.Assumptions = []string{"an END bound that is present with an empty key is not defined by the statement: 'no upper bound' and the literal reading (selects nothing) are both accepted, per bound mode; an empty START key selects everything under either reading", "inverted = start key > end key as raw bytes, both set"}
 	j := common.NewJournal("C03")
 	for ei, engine := range drive.Engines {
@@ -640,43 +640,122 @@ func c03Sample(run *common.Run, srv *drive.Srv, engine string, ei int, tables []
 			continue
 		}
 		stored := keysOf(full.Rows)
-		isStored := map[string]bool{}
-		for _, k := range stored {
-			isStored[k] = true
-		}
 		for rep := 0; rep < reps; rep++ {
 			idx := ei*100000 + ti*1000 + rep
 			if !run.Want("sample", idx) {
 				continue
 			}
-			st, keys, offs := drive.SampleRowKeys(srv.Data, name)
-			bad := ""
-			switch {
-			case !st.OK():
-				bad = "SampleRowKeys failed: " + st.String()
-			case len(stored) == 0 && len(keys) != 0:
-				bad = fmt.Sprintf("empty table sampled keys %q", keys)
-			case len(stored) > 0 && len(keys) == 0:
-				bad = "no sample for a non-empty table (the last key must be returned)"
-			case len(stored) > 0 && keys[len(keys)-1] != stored[len(stored)-1]:
-				bad = fmt.Sprintf("last sample %q is not the last stored key %q", keys[len(keys)-1], stored[len(stored)-1])
-			}
-			for i := 0; bad == "" && i < len(keys); i++ {
-				if !isStored[keys[i]] {
-					bad = fmt.Sprintf("sampled key %q is not a stored row", keys[i])
-				} else if i > 0 && keys[i] <= keys[i-1] {
-					bad = fmt.Sprintf("sampled keys not strictly ascending: %q then %q", keys[i-1], keys[i])
-				} else if i > 0 && offs[i] < offs[i-1] {
-					bad = fmt.Sprintf("offsets decrease: %d then %d", offs[i-1], offs[i])
-				} else if offs[i] < 0 {
-					bad = fmt.Sprintf("negative offset %d", offs[i])
-				}
-			}
+			bad, keys := sampleInvariant(srv.Data, name, stored)
 			if bad != "" {
-				run.Violation("sample", idx, bad+fmt.Sprintf(" | engine=%s table=%s", engine, name), map[string]any{"engine": engine, "table": name, "keys": fmt.Sprintf("%q", keys), "offsets": offs})
+				run.Violation("sample", idx, bad+fmt.Sprintf(" | engine=%s table=%s", engine, name), map[string]any{"engine": engine, "table": name, "keys": fmt.Sprintf("%q", keys)})
 			}
 			run.Case(common.Hash64("sample", engine, name, fmt.Sprint(keys)), len(keys) > 1)
 			run.Count("sample_calls", 1)
 		}
+	}
+	c03SampleHistory(run, srv, engine, ei)
+}
+
+// c03SampleHistory: SampleRowKeys interleaved with requests that add or remove rows WITHOUT being row writes (prefix
+// drops, a family drop, delete-all) and with row writes and deletes: after every step the samples must describe the
+// rows stored at that moment (a server that remembers an earlier answer must notice every kind of change).
+func c03SampleHistory(run *common.Run, srv *drive.Srv, engine string, ei int) {
+	for h := 0; h < run.N(6, 60); h++ {
+		idx := ei*1000 + h
+		if !run.Want("samplehist", idx) || run.TooMany() {
+			continue
+		}
+		r := run.Rand("C03.samplehist", h)
+		name := drive.MustTable(srv.Admin, fmt.Sprintf("sh%d", h), "f", "g")
+		m := model.NewTable("f", "g")
+		n := r.Range(5, 400)
+		var entries []drive.Entry
+		for i := 0; i < n; i++ {
+			fam := common.Pick(r, []string{"f", "g"})
+			muts := []model.Mut{{Kind: model.SetCell, Fam: fam, Qual: "q", TS: 1000, Val: "v"}}
+			key := fmt.Sprintf("%c%04d", 'a'+i%5, i)
+			_, nr := m.Apply(key, muts, 0)
+			m.Commit(key, nr)
+			entries = append(entries, drive.Entry{Key: key, Muts: muts})
+		}
+		drive.MutateRows(srv.Data, name, entries)
+		var steps []string
+		check := func() bool {
+			if bad, keys := sampleInvariant(srv.Data, name, m.Keys()); bad != "" {
+				run.Violation("samplehist", idx, bad+fmt.Sprintf(" | engine=%s after %v", engine, steps), map[string]any{"engine": engine, "steps": steps, "samples": fmt.Sprintf("%q", keys), "stored": len(m.Keys())})
+				return false
+			}
+			run.Count("sample_calls_in_histories", 1)
+			return true
+		}
+		ok := check()
+		for s := 0; s < 8 && ok; s++ {
+			switch r.Intn(6) {
+			case 0:
+				prefix := string(rune('a' + r.Intn(6)))
+				ctx, cancel := drive.Ctx()
+				_, err := srv.Admin.DropRowRange(ctx, &btapb.DropRowRangeRequest{Name: name, Target: &btapb.DropRowRangeRequest_RowKeyPrefix{RowKeyPrefix: []byte(prefix)}})
+				cancel()
+				steps = append(steps, fmt.Sprintf("DropRowRange(%q)->%v", prefix, err))
+				for k := range m.Rows {
+					if strings.HasPrefix(k, prefix) {
+						delete(m.Rows, k)
+					}
+				}
+			case 1:
+				fam := common.Pick(r, []string{"f", "g"})
+				if _, has := m.Families[fam]; !has {
+					continue
+				}
+				ctx, cancel := drive.Ctx()
+				_, err := srv.Admin.ModifyColumnFamilies(ctx, &btapb.ModifyColumnFamiliesRequest{Name: name, Modifications: []*btapb.ModifyColumnFamiliesRequest_Modification{{Id: fam, Mod: &btapb.ModifyColumnFamiliesRequest_Modification_Drop{Drop: true}}}})
+				cancel()
+				steps = append(steps, fmt.Sprintf("ModifyColumnFamilies(drop %s)->%v", fam, err))
+				delete(m.Families, fam)
+				for k, row := range m.Rows {
+					delete(row, fam)
+					m.Commit(k, row)
+				}
+			case 2:
+				ctx, cancel := drive.Ctx()
+				_, err := srv.Admin.DropRowRange(ctx, &btapb.DropRowRangeRequest{Name: name, Target: &btapb.DropRowRangeRequest_DeleteAllDataFromTable{DeleteAllDataFromTable: true}})
+				cancel()
+				steps = append(steps, fmt.Sprintf("DropRowRange(all)->%v", err))
+				m.Rows = map[string]map[string]map[string]map[int64]string{}
+			case 3:
+				var fs []string
+				for f := range m.Families {
+					fs = append(fs, f)
+				}
+				if len(fs) == 0 {
+					continue
+				}
+				sort.Strings(fs)
+				key := fmt.Sprintf("%c%04d", 'a'+r.Intn(6), r.Intn(500))
+				muts := []model.Mut{{Kind: model.SetCell, Fam: common.Pick(r, fs), Qual: "q", TS: 1000, Val: "w"}}
+				st := drive.MutateRow(srv.Data, name, key, muts)
+				steps = append(steps, fmt.Sprintf("MutateRow(%q)->%s", key, st))
+				if st.OK() {
+					_, nr := m.Apply(key, muts, 0)
+					m.Commit(key, nr)
+				}
+			case 4:
+				ks := m.Keys()
+				if len(ks) == 0 {
+					continue
+				}
+				key := ks[len(ks)-1] // delete the last stored key: the last sample must move
+				if r.Bool() {
+					key = common.Pick(r, ks)
+				}
+				st := drive.MutateRow(srv.Data, name, key, []model.Mut{{Kind: model.DelRow}})
+				steps = append(steps, fmt.Sprintf("DeleteFromRow(%q)->%s", key, st))
+				delete(m.Rows, key)
+			default:
+				steps = append(steps, "(no change)")
+			}
+			ok = check()
+		}
+		run.Case(common.Hash64("samplehist", engine, fmt.Sprint(steps)), len(steps) > 2)
 	}
 }
